@@ -128,6 +128,13 @@ func (c *CryptoCodec) Encrypt(hexKey, hexIv string, text []byte) ([]byte, error)
 
 	switch c.mode {
 	case CBC:
+		if c.padding == NOPAD && len(text)%aes.BlockSize != 0 {
+			return nil, errors.New(
+				c.name,
+				"Input size must be a multiple of the block size (%d bytes) for %s mode without padding, got %d bytes",
+				aes.BlockSize, c.mode, len(text),
+			)
+		}
 		return c.encryptCBC(block, iv, text), nil
 	case CTR:
 		return c.encryptCTR(block, iv, text), nil
@@ -144,7 +151,7 @@ func (c *CryptoCodec) encryptCBC(block cipher.Block, iv, text []byte) []byte {
 
 	padded := text
 	if c.padding != NOPAD {
-		padSize := aes.BlockSize - (len(text) & aes.BlockSize)
+		padSize := aes.BlockSize - (len(text) % aes.BlockSize)
 		padding := bytes.Repeat([]byte{byte(padSize)}, padSize)
 		padded = append(padded, padding...)
 	}
@@ -169,7 +176,14 @@ func (c *CryptoCodec) Decrypt(hexKey, hexIv string, text []byte) ([]byte, error)
 
 	switch c.mode {
 	case CBC:
-		return c.decryptCBC(block, iv, text), nil
+		if len(text) == 0 || len(text)%aes.BlockSize != 0 {
+			return nil, errors.New(
+				c.name,
+				"Input size must be a multiple of the block size (%d bytes) for %s mode, got %d bytes",
+				aes.BlockSize, c.mode, len(text),
+			)
+		}
+		return c.decryptCBC(block, iv, text)
 	case CTR:
 		return c.decryptCTR(block, iv, text), nil
 	case GCM:
@@ -180,7 +194,7 @@ func (c *CryptoCodec) Decrypt(hexKey, hexIv string, text []byte) ([]byte, error)
 	return nil, errors.New(c.name, "Unsupported mode: %s", c.mode)
 }
 
-func (c *CryptoCodec) decryptCBC(block cipher.Block, iv, text []byte) []byte {
+func (c *CryptoCodec) decryptCBC(block cipher.Block, iv, text []byte) ([]byte, error) {
 	dec := cipher.NewCBCDecrypter(block, iv)
 
 	decrypted := make([]byte, len(text))
@@ -189,9 +203,14 @@ func (c *CryptoCodec) decryptCBC(block cipher.Block, iv, text []byte) []byte {
 	if c.padding != NOPAD {
 		// unpadding
 		padSize := int(decrypted[len(decrypted)-1])
+		if padSize == 0 || padSize > aes.BlockSize {
+			return nil, &BadDecryptError{
+				Message: "CBC padding is invalid",
+			}
+		}
 		decrypted = decrypted[:len(decrypted)-padSize]
 	}
-	return decrypted
+	return decrypted, nil
 }
 
 func (c *CryptoCodec) decryptCTR(block cipher.Block, iv, text []byte) []byte {
